@@ -941,9 +941,11 @@ def instruction(ctx):
         if idx == -1:
             idx = len(ctx.code)
 
-        text = ctx.code[ctx.pos:idx].strip()
+        line = ctx.code[ctx.pos:idx]
+        text = line.strip()
         if text:
-            ctx.skip_whitespace()
+            # Skip only the blanks before the text: the text may itself begin with ';'
+            ctx.pos += len(line) - len(line.lstrip())
             ctx_before_message = ctx.save()
             ctx.pos += len(text)
             operands = [types.QuotedString(ctx_before_message, ctx, "", text)]
